@@ -1973,9 +1973,163 @@ def stream_grid_histories(ctx):
     return st
 
 
+def stream_flag_cross(ctx):
+    """geometry x include_constant x spinless, positional and keyword, for the dual-basis Hamiltonian helpers"""
+    of = ctx.of
+    import importlib
+    import numpy as np
+    pw = importlib.import_module('openfermion.hamiltonians.plane_wave_hamiltonian')
+    jl = importlib.import_module('openfermion.hamiltonians.jellium')
+    from openfermion.utils import Grid
+    from openfermion.linalg import get_sparse_operator
+    jw = of.transforms.jordan_wigner
+    st = Stream('hamiltonian-flag-cross', 'the full cross geometry in {None, one nucleus, two nuclei} x include_constant in '
+                '{False, True} x spinless in {False, True}, arguments passed positionally AND by keyword, on cubic, unequal-length '
+                'and anisotropic grids (1-D, 2-D; 3-D thorough), for jordan_wigner_dual_basis_hamiltonian, '
+                'plane_wave_hamiltonian(plane_wave=False / True) and, without nuclei, jordan_wigner_dual_basis_jellium / '
+                'jellium_model / dual_basis_jellium_model: (i) geometry with include_constant=True must raise ValueError in every '
+                'path; (ii) otherwise the fast path equals jordan_wigner(plane_wave_hamiltonian(.., plane_wave=False, '
+                'include_constant)) and jordan_wigner of the INDEPENDENT construction from the cell matrix + the Madelung constant '
+                '2.8372 / V^(1/d) (1e-9 on every coefficient); (iii) the IDENTITY coefficient of every path is compared '
+                'separately (1e-12): for the FermionOperator paths it is exactly the constant (0 without it), for the qubit '
+                'paths the constant plus the identity part of the independent construction; (iv) positional and keyword calls '
+                'agree exactly; (v) plane-wave and dual-basis Hamiltonians have the same spectrum (<= 8 orbitals, 1e-8); '
+                'distinct = (grid, geometry, flags, function)')
+    grids = [(1, (3,), 2.0), (2, (2, 2), 1.5), (2, (2, 3), 1.0), (2, (2, 2), np.diag([1.0, 1.7])), (1, (4,), 1.0)]
+    if ctx.tier == 'thorough':
+        grids += [(2, (3, 2), np.array([[1.0, 0.3], [0.0, 1.2]])), (3, (2, 1, 2), 1.25), (2, (3, 3), 2.0), (1, (5,), 0.75)]
+    for d, lengths, scale in grids:
+        cell = np.diag([scale] * d) if isinstance(scale, float) else np.asarray(scale, float)
+        volume = abs(float(np.linalg.det(cell)))
+        madelung = 2.8372 / volume ** (1.0 / d)
+        geos = [None,
+                [('H', tuple(cell.dot(np.array([0.25] * d))))],
+                [('H', tuple(cell.dot(np.array([0.25] * d)))), ('He', tuple(cell.dot(np.array([0.6, 0.35, 0.8][:d]))))]]
+        for gi, geometry in enumerate(geos):
+            for const in (False, True):
+                for spinless in (True, False):
+                    n_orb = int(np.prod(lengths)) * (1 if spinless else 2)
+                    if n_orb > 12:
+                        continue
+                    shown = {'grid': [d, list(lengths), cell.tolist()], 'geometry': geometry, 'spinless': spinless,
+                             'include_constant': const}
+
+                    def G():
+                        return Grid(d, list(lengths), scale)
+                    paths = {
+                        'jordan_wigner_dual_basis_hamiltonian(positional)':
+                            lambda: pw.jordan_wigner_dual_basis_hamiltonian(G(), geometry, spinless, const),
+                        'jordan_wigner_dual_basis_hamiltonian(keywords)':
+                            lambda: pw.jordan_wigner_dual_basis_hamiltonian(grid=G(), geometry=geometry, spinless=spinless,
+                                                                            include_constant=const),
+                        'plane_wave_hamiltonian(plane_wave=False, positional)':
+                            lambda: pw.plane_wave_hamiltonian(G(), geometry, spinless, False, const),
+                        'plane_wave_hamiltonian(plane_wave=False, keywords)':
+                            lambda: pw.plane_wave_hamiltonian(G(), geometry=geometry, spinless=spinless, plane_wave=False,
+                                                              include_constant=const),
+                        'plane_wave_hamiltonian(plane_wave=True, positional)':
+                            lambda: pw.plane_wave_hamiltonian(G(), geometry, spinless, True, const),
+                        'plane_wave_hamiltonian(plane_wave=True, keywords)':
+                            lambda: pw.plane_wave_hamiltonian(G(), geometry=geometry, spinless=spinless, plane_wave=True,
+                                                              include_constant=const),
+                    }
+                    if geometry is None:
+                        paths.update({
+                            'jordan_wigner_dual_basis_jellium(positional)':
+                                lambda: jl.jordan_wigner_dual_basis_jellium(G(), spinless, const),
+                            'jordan_wigner_dual_basis_jellium(keywords)':
+                                lambda: jl.jordan_wigner_dual_basis_jellium(G(), spinless=spinless, include_constant=const),
+                            'jellium_model(plane_wave=False, keywords)':
+                                lambda: jl.jellium_model(G(), spinless=spinless, plane_wave=False, include_constant=const),
+                            'jellium_model(plane_wave=True, positional)':
+                                lambda: jl.jellium_model(G(), spinless, True, const),
+                            'dual_basis_jellium_model(keywords)':
+                                lambda: jl.dual_basis_jellium_model(G(), spinless=spinless, include_constant=const),
+                            'jordan_wigner_dual_basis_hamiltonian(geometry omitted)':
+                                lambda: pw.jordan_wigner_dual_basis_hamiltonian(G(), spinless=spinless, include_constant=const),
+                        })
+                    results = {}
+                    for name, f in paths.items():
+                        case = dict(shown, fn=name)
+                        st.case(case)
+                        st.count('geometry=%s:include_constant=%s' % (['None', 'one nucleus', 'two nuclei'][gi], const))
+                        if geometry is not None and const:
+                            # documented: "Constant term unsupported for non-uniform systems"
+                            try:
+                                f()
+                                st.violate('%s accepts a geometry together with include_constant=True (must raise ValueError)'
+                                           % name, case, {})
+                            except ValueError:
+                                st.count('ValueError as documented')
+                            except Exception as e:   # noqa
+                                st.violate('%s raised %s instead of ValueError' % (name, type(e).__name__), case, {})
+                            continue
+                        ok, res = call(st, name, case, f)
+                        if ok:
+                            results[name] = (case, res)
+                    if not results:
+                        continue
+                    own_f = _own_dual_basis(of, np, cell, lengths, spinless, geometry)
+                    if const:
+                        own_f = own_f + of.FermionOperator((), madelung)
+                    own_q = jw(own_f)
+                    want_const = madelung if const else 0.0
+                    for name, (case, res) in results.items():
+                        qubit = name.startswith('jordan_wigner')
+                        plane = 'plane_wave=True' in name
+                        # (iii) the identity coefficient
+                        st.float_comparisons += 1
+                        got_id = complex(res.terms.get((), 0.0))
+                        want_id = complex(own_q.terms.get((), 0.0)) if qubit else want_const
+                        tol_id = 1e-12 * max(1.0, abs(want_id)) if not qubit else 1e-9 * max(1.0, abs(want_id))
+                        if abs(got_id - want_id) > tol_id:
+                            st.violate('%s: identity coefficient %r, expected %r (Madelung constant 2.8372 / V^(1/d) = %r %s)'
+                                       % (name, got_id, want_id, madelung, 'included' if const else 'not included'), case, {})
+                        # (ii) the whole operator
+                        if qubit:
+                            st.float_comparisons += len(set(res.terms) | set(own_q.terms))
+                            good, worst = close_ops(res, own_q)
+                            if not good:
+                                st.violate('%s differs from jordan_wigner of the independent construction' % name, case,
+                                           {'max_abs_difference': worst})
+                        elif not plane:
+                            st.float_comparisons += 1
+                            good, worst = close_ops(of.normal_ordered(res), of.normal_ordered(own_f))
+                            if not good:
+                                st.violate('%s differs from the independent construction' % name, case,
+                                           {'max_abs_difference': worst})
+                    # fast path against jordan_wigner of the library's own FermionOperator path
+                    a = results.get('jordan_wigner_dual_basis_hamiltonian(positional)')
+                    b = results.get('plane_wave_hamiltonian(plane_wave=False, positional)')
+                    if a and b:
+                        ref = jw(b[1])
+                        st.float_comparisons += len(set(ref.terms) | set(a[1].terms))
+                        good, worst = close_ops(a[1], ref)
+                        if not good:
+                            st.violate('jordan_wigner_dual_basis_hamiltonian differs from jordan_wigner(plane_wave_hamiltonian('
+                                       'plane_wave=False)) with the same flags', a[0], {'max_abs_difference': worst})
+                    # (iv) positional == keyword, exactly
+                    for stem in ('jordan_wigner_dual_basis_hamiltonian', 'plane_wave_hamiltonian(plane_wave=False',
+                                 'plane_wave_hamiltonian(plane_wave=True', 'jordan_wigner_dual_basis_jellium'):
+                        same = [v for k2, v in results.items() if k2.startswith(stem)]
+                        for other in same[1:]:
+                            if dict(other[1].terms) != dict(same[0][1].terms):
+                                st.violate('%s: positional and keyword calls differ' % stem, other[0], {})
+                    # (v) plane-wave and dual basis are unitarily equivalent
+                    pwv = results.get('plane_wave_hamiltonian(plane_wave=True, positional)')
+                    if pwv and b and n_orb <= 8:
+                        st.float_comparisons += 1
+                        e1 = np.linalg.eigvalsh(get_sparse_operator(pwv[1], n_qubits=n_orb).toarray())
+                        e2 = np.linalg.eigvalsh(get_sparse_operator(b[1], n_qubits=n_orb).toarray())
+                        if float(np.max(np.abs(e1 - e2))) > 1e-8 * max(1.0, float(np.max(np.abs(e2)))):
+                            st.violate('plane-wave and dual-basis Hamiltonians have different spectra', pwv[0],
+                                       {'max_abs_difference': float(np.max(np.abs(e1 - e2)))})
+    return st
+
+
 def run(ctx):
     # stream_grid_histories first: its fresh-history children must be forked before any other jellium call of this process
     hist = stream_grid_histories(ctx)
-    return [stream_fermion(ctx), stream_helpers(ctx), stream_tensors(ctx), stream_reverse(ctx), hist,
+    return [stream_fermion(ctx), stream_helpers(ctx), stream_tensors(ctx), stream_reverse(ctx), hist, stream_flag_cross(ctx),
             stream_jellium(ctx), stream_jellium_model(ctx), stream_jellium_exact(ctx), stream_dual_basis_hamiltonian_model(ctx),
             stream_hardening(ctx)]
